@@ -5,6 +5,7 @@ import (
 	"os"
 	"strconv"
 	"testing"
+	"time"
 )
 
 // C19: a decimal k*10^-d (0 <= d <= 4) converts to the scaled-number representation exactly and back
@@ -47,5 +48,29 @@ func TestReplay_C19_ScaledNumber(t *testing.T) {
 		d int
 	}{{29, 2}, {57, 2}, {435, 2}, {1005, 3}, {3, 1}, {7, 1}, {1234567, 4}} {
 		rpC19Check(t, w.k, w.d)
+	}
+}
+
+// Replay for post#denotes-instant / post#reads-back (C19, instants): an instant with whole seconds survives the
+// conversion to its SPINE text form and back exactly, whatever the location of the time value handed in; sub-second
+// parts are rounded to the nearest second.
+func TestReplay_C19_InstantRoundTrip(t *testing.T) {
+	zones := []*time.Location{time.UTC, time.FixedZone("plus2", 2*3600), time.FixedZone("minus5", -5*3600), time.FixedZone("india", 5*3600+1800)}
+	base := time.Date(2024, 2, 29, 23, 59, 58, 0, time.UTC)
+	for _, z := range zones {
+		for _, ns := range []int{0, 400_000_000, 600_000_000} {
+			in := base.Add(time.Duration(ns)).In(z)
+			want := in.Round(time.Second)
+			dt := NewDateTimeTypeFromTime(in)
+			got, err := dt.GetTime()
+			if err != nil || !got.Equal(want) {
+				t.Errorf("C19 violated: %v (zone %v) is written as %q and read back as %v (err %v), want %v", in, z, string(*dt), got, err, want.UTC())
+			}
+			ar := NewAbsoluteOrRelativeTimeTypeFromTime(in)
+			got2, err2 := ar.GetTime()
+			if err2 != nil || !got2.Equal(want) {
+				t.Errorf("C19 violated: %v (zone %v) is written as %q and read back as %v (err %v), want %v", in, z, string(*ar), got2, err2, want.UTC())
+			}
+		}
 	}
 }
